@@ -93,7 +93,7 @@ func irTyClassD(L *Loaded, pkg *packages.Package, body ast.Node, e ast.Expr, dep
 		}
 	case *ast.SelectorExpr:
 		if v, ok := info.Uses[x.Sel].(*types.Var); ok && v.Pkg() != nil && strings.HasSuffix(v.Pkg().Path(), "llir/llvm/ir/types") && !v.IsField() {
-			switch v.Name() {
+			switch canonName(v) {
 			case "I1":
 				return "i1"
 			case "I8":
@@ -114,19 +114,19 @@ func irTyClassD(L *Loaded, pkg *packages.Package, body ast.Node, e ast.Expr, dep
 				return "ptr"
 			}
 		}
-		if v, ok := info.Uses[x.Sel].(*types.Var); ok && v.IsField() && v.Name() == "ptr" {
+		if v, ok := info.Uses[x.Sel].(*types.Var); ok && v.IsField() && nameIs(v, "ptr") {
 			return "ptr"
 		}
 	case *ast.CallExpr:
 		if fn := Callee(info, x); fn != nil {
-			switch fn.Name() {
+			switch canonName(fn) {
 			case "ptr", "NewPointer", "PtrType":
 				return "ptr"
 			case "NewArray":
 				return "agg"
 			case "IrType":
 				if sel, ok := ast.Unparen(x.Fun).(*ast.SelectorExpr); ok {
-					if f := fieldOf(info, sel.X); f != nil && f.Name() == "void" {
+					if f := fieldOf(info, sel.X); f != nil && nameIs(f, "void") {
 						return "void"
 					}
 				}
@@ -168,7 +168,7 @@ func checkC18(c *Check) {
 				return true
 			}
 			fn := Callee(info, call)
-			if fn == nil || fn.Name() != "NewTypeDef" || len(call.Args) != 2 {
+			if fn == nil || !nameIs(fn, "NewTypeDef") || len(call.Args) != 2 {
 				return true
 			}
 			st, ok := call.Args[1].(*ast.CallExpr)
@@ -180,7 +180,7 @@ func checkC18(c *Check) {
 			if st == nil {
 				return true
 			}
-			if f2 := Callee(info, st); f2 == nil || f2.Name() != "NewStruct" {
+			if f2 := Callee(info, st); f2 == nil || !nameIs(f2, "NewStruct") {
 				return true
 			}
 			var got []string
@@ -251,7 +251,7 @@ func checkC18(c *Check) {
 				return true
 			}
 			fn := Callee(info, call)
-			if fn == nil || fn.Name() != "declareExternalRuntimeFunction" || len(call.Args) < 2 {
+			if fn == nil || !nameIs(fn, "declareExternalRuntimeFunction") || len(call.Args) < 2 {
 				return true
 			}
 			name, ok := constString(info, call.Args[0])
@@ -312,7 +312,7 @@ func checkC18(c *Check) {
 		pred, k := "", ""
 		ast.Inspect(fi.Decl.Body, func(n ast.Node) bool {
 			if call, ok := n.(*ast.CallExpr); ok {
-				if fn := Callee(info, call); fn != nil && fn.Name() == "NewICmp" && len(call.Args) == 3 {
+				if fn := Callee(info, call); fn != nil && nameIs(fn, "NewICmp") && len(call.Args) == 3 {
 					pred = L.Src(call.Args[0])
 					ast.Inspect(call.Args[2], func(m ast.Node) bool {
 						if e, ok := m.(ast.Expr); ok {
@@ -438,7 +438,7 @@ func checkConvention(c *Check, P *CProgram) {
 		uses := false
 		ast.Inspect(fi.Decl.Body, func(n ast.Node) bool {
 			if call, ok := n.(*ast.CallExpr); ok {
-				if fn := Callee(info, call); fn != nil && (fn.Name() == "IsPrimitive" || fn.Name() == "hasReturnParam") {
+				if fn := Callee(info, call); fn != nil && (nameIs(fn, "IsPrimitive") || nameIs(fn, "hasReturnParam")) {
 					uses = true
 				}
 			}
